@@ -16,7 +16,7 @@ import multiprocessing as mp
 import os
 from collections import Counter
 
-from ..core import PKG
+from ..core import PKG, die_with_parent
 from .. import dimtype
 
 LEVEL = "proof"
@@ -50,7 +50,7 @@ def run(report):
     mods = [m for m, _ in files]
     nproc = max(1, min(16, os.cpu_count() or 1, int(os.environ.get("VERIF_PROCS", "16"))))
     ctx = mp.get_context("fork")
-    with ctx.Pool(processes=nproc, maxtasksperchild=1) as pool:
+    with ctx.Pool(processes=nproc, maxtasksperchild=1, initializer=die_with_parent) as pool:
         results = list(pool.imap_unordered(_work, mods, chunksize=1))
     results.sort(key=lambda r: r["module"])
     if {r["module"] for r in results} != set(mods) or len(results) != len(mods):
